@@ -52,6 +52,16 @@ func (f *frame) call(st *State, instr ssa.Instruction, com *ssa.CallCommon, pos 
 		return f.unknownCall(st, "call through a function value with several possible targets", com.Signature(), pos)
 	}
 	if callee == nil {
+		if p, isParam := com.Value.(*ssa.Parameter); isParam && vc.contract != nil && vc.contract.FuncZero &&
+			len(args) == 1 && com.Signature().Results().Len() == 1 && isBoolType(com.Signature().Results().At(0).Type()) {
+			// "funczero": a func(byte) bool parameter is a pure predicate that is
+			// false for 0 (callers are obliged to pass such functions)
+			if a, ok := args[0].(*Term); ok {
+				if ft, ok := st.env[p].(*Term); ok {
+					return &Term{vc.fapp(ft.S, a), SBool, types.Typ[types.Bool]}
+				}
+			}
+		}
 		return f.unknownCall(st, "dynamic call "+com.Value.Name(), com.Signature(), pos)
 	}
 	cc := vc.eng.contractFor(callee)
@@ -93,6 +103,13 @@ func (f *frame) freshResult(sig *types.Signature, hint string) Val {
 
 func (f *frame) unknownCall(st *State, name string, sig *types.Signature, pos token.Pos) Val {
 	vc := f.vc
+	if vc.contract != nil && vc.contract.PureCalls && strings.HasPrefix(name, "dynamic call") {
+		// "purecalls": calls through function values are assumed effect-free here
+		vc.trusted["calls through function values in "+vc.fnName+" are effect-free (contract: purecalls)"] = true
+		r := f.freshResult(sig, "dyn")
+		f.assumeAllocatedVal(st, r)
+		return r
+	}
 	vc.havoced[name] = true
 	vc.havocAll(st)
 	r := f.freshResult(sig, "ext")
@@ -109,6 +126,26 @@ func (f *frame) assumeAllocatedVal(st *State, v Val) {
 			f.assumeAllocatedVal(st, x)
 		}
 	}
+}
+
+// fapp: application of an opaque predicate value (a func(byte) bool parameter
+// of a "funczero" function); it is false for 0.
+func (vc *VC) fapp(f string, a *Term) string {
+	fn := "fapp_" + sanitize(a.Sort)
+	if !vc.declared[fn] {
+		vc.declared[fn] = true
+		vc.emitDecl("(declare-fun " + fn + " (Func " + a.Sort + ") Bool)")
+	}
+	key := fn + "/" + f
+	if !vc.declared[key] {
+		vc.declared[key] = true
+		zero := "0"
+		if strings.HasPrefix(a.Sort, "(_ BitVec") {
+			zero = vc.intLit(0, bvBits(a.Sort))
+		}
+		vc.assume("(not (" + fn + " " + f + " " + zero + "))")
+	}
+	return "(" + fn + " " + f + " " + a.S + ")"
 }
 
 type heapLoc struct {
@@ -331,6 +368,32 @@ func (f *frame) callContract(st *State, callee *ssa.Function, cc *Contract, args
 			w.T = gt
 		}
 		sc.vars[g.Name] = w
+	}
+	// a function passed to a "funczero" callee must be false for 0
+	if cc.FuncZero {
+		for i, a := range args {
+			fv, ok := a.(*FuncVal)
+			if !ok || fv.Fn.Signature.Params().Len() != 1 {
+				continue
+			}
+			pt := fv.Fn.Signature.Params().At(0).Type()
+			if !isIntType(pt) {
+				continue
+			}
+			bits, _ := intInfo(pt)
+			tmp := st.clone()
+			zero := &Term{vc.intLit(0, bits), vc.intSort(bits), pt}
+			var res Val
+			if fcc := vc.eng.contractFor(fv.Fn); fcc != nil && !fcc.Inline {
+				res = f.callContract(tmp, fv.Fn, fcc, []Val{zero}, pos)
+			} else if fv.Fn.Blocks != nil {
+				res, _ = vc.execFunc(fv.Fn, fcc, []Val{zero}, fv.Bindings, tmp, false)
+			}
+			if rt, ok := res.(*Term); ok {
+				tmp.reach = st.reach
+				vc.oblige(tmp, "pre."+short+".funczero", not(rt.S), fmt.Sprintf("function argument %d of %s is false for 0", i, short), pos, false)
+			}
+		}
 	}
 	// type invariants of arguments are proof obligations at the call
 	for i, a := range args {
